@@ -23,5 +23,6 @@ done
 GOMAXPROCS=1 ./run-race -case racy -runs 20 2>&1 | grep -q "DATA RACE" || { echo "the racy scenario was not reported"; exit 1; }
 GOMAXPROCS=1 ./run -case leak -runs 3 | grep -q "ABORT unmodelled-leftover-goroutines" || { echo "leak not detected"; exit 1; }
 GOMAXPROCS=1 ./run -case dead -runs 3 | grep -q "ABORT deadlock" || { echo "deadlock not detected"; exit 1; }
+GOMAXPROCS=1 ./run -case lostupdate -runs 200 | grep -q "true:" || { echo "no tape lost an update of the unsynchronised counter (read-modify-write split)"; exit 1; }
 cat out1.txt
 echo "toytest ok"
